@@ -2,7 +2,7 @@
 
 * export.segments2vcf   -> src_segments2vcf_row   : the cells of the VCF record one segment yields, or none
 * export.export_bed     -> src_export_bed_row     : the cells of the BED row one segment yields, or none
-* cmdutil.verify_sample_sex -> src_verify_sample_sex : the sample sex the export commands hand to the exporters
+* cmdutil.verify_sample_sex -> src_export_verify_sample_sex : the sample sex the export commands hand to the exporters
 * commands._cmd_export_bed (the if-chain binding `label`) -> src_cmd_export_bed_label
 
 Props/C20Src.lean proves that the hand-written model functions (Model/Export.lean, Model/ExportExt.lean) equal these
@@ -45,7 +45,7 @@ SPECS = [
      }, "export.export_bed for ONE segment: the five cells of its row, or none when `show` drops it. label: None is read "
         "as the empty string; absolute_clonal = call.absolute_clonal(..., purity 1.0, ...), absolute_expect = "
         "call.absolute_expect(...)"),
-    ("cnvlib/cmdutil.py", "verify_sample_sex", "src_verify_sample_sex", {
+    ("cnvlib/cmdutil.py", "verify_sample_sex", "src_export_verify_sample_sex", {
         "scalars": {"sex_arg": "S"},
         "opaque": {".guess_xx": ("col", "B", "guess_xx", ["is_haploid_x_reference", "diploid_parx_genome", "verbose=False"])},
         "sig": [("guess_xx", "Bool"), ("sex_arg", "String")],
